@@ -259,6 +259,46 @@ def gen_case(rng, cid):
     return c
 
 
+def gen_long_case(rng, cid, fixed=False):
+    """long, heavy flight: the fuel burnt is a sizeable fraction of the mass, so that the SECOND and the THIRD pass of the
+    iteration still move the free end of the profile by more than the 0.01 % criterion (the ordinary profiles converge in
+    two passes).  Level cruise of 3500 - 7500 km (jet) with an optional climb / descent point at the ends, n_iter in
+    {3, 5, 10}, mostly the backward (constant-final-mass) driver.  fixed=True: A320-like, 6000 km, final mass 56 t."""
+    eng = 'Jet' if fixed or rng.random() < 0.8 else 'Turboprop'
+    P = dict(BASE[eng])
+    if not fixed:
+        for k in list(P):
+            if P[k] != 0.0:
+                P[k] = P[k] * rng.uniform(0.95, 1.05)
+        P['c_tcr'] = min(P['c_tcr'], 1.0)
+    P['engine_type'] = eng
+    n = 61 if fixed else rng.choice([21, 31, 41, 61])
+    total = 6.0e6 if fixed else ({'Jet': 1.0, 'Turboprop': 0.45}[eng] * rng.uniform(3.5e6, 7.5e6))
+    alt0 = {'Jet': 10668.0, 'Turboprop': 6500.0}[eng]
+    vcr = {'Jet': 230.0, 'Turboprop': 140.0}[eng]
+    ends = (not fixed) and rng.random() < 0.5
+    wind = 0.0 if fixed else rng.uniform(-0.1, 0.1)
+    pts = []
+    for i in range(n):
+        alt, v, rocd, acc, cruise = alt0, vcr, 0.0, 0.0, True
+        if ends and i == 0:
+            alt, v, rocd, acc, cruise = 0.5 * alt0, 0.8 * vcr, 8.0, 0.1, False
+        elif ends and i == n - 1:
+            alt, v, rocd, acc, cruise = 0.5 * alt0, 0.8 * vcr, -8.0, -0.1, False
+        elif not fixed:
+            alt = alt0 * rng.uniform(0.93, 1.02)
+            v = vcr * rng.uniform(0.97, 1.03)
+        pts.append({'T': isa_T(alt), 'alt': alt, 'v': v, 'rocd': rocd, 'acc': acc, 'cruise': cruise, 'gs': v * (1.0 + wind)})
+    seg = total / (n - 1)
+    scalar = fixed or rng.random() < 0.5
+    ds = [seg] * (n - 1) if scalar else [seg * rng.uniform(0.6, 1.4) for _ in range(n - 1)]
+    drv = 'cf' if fixed or rng.random() < 0.75 else 'ci'
+    c = {'id': cid, 'engine': eng, 'params': P, 'pts': pts, 'ds': ds, 'scalar_dx': scalar, 'driver': drv,
+         'n_iter': 10 if fixed else rng.choice([3, 5, 10]), 'flag_kind': 'bool', 'long': True}
+    c['m'] = (56000.0 if fixed else P['ref_mass'] * rng.uniform(0.8, 0.95)) if drv == 'cf' else P['ref_mass'] * rng.uniform(1.05, 1.18)
+    return c
+
+
 def gen_param_twin(rng, c, cid):
     """the same flight again on the SAME model / parameter object after some coefficients were changed on that object,
     by attribute assignment or by assign_parameters_fromdict: the result must be that of a fresh object with the new values"""
@@ -387,13 +427,20 @@ def impl_case(c, own):
         # the iterate the last update started from: the result for the largest j < k that differs (early exits repeat)
         j = max(k, base) - 1
         prev = None
+        same_as_fewer = False
         while j >= base:
             cand = run_driver(model, c, j, a)
             if cand != out['result']:
                 prev = cand
                 break
+            same_as_fewer = True          # asking for fewer passes gives the same vector: the driver returned early
             j -= 1
         out['prev'] = prev
+        out['same_as_fewer'] = same_as_fewer
+        if c.get('long') and not fd:
+            f_ = 0 if c['driver'] == 'cf' else -1
+            p2, p3 = run_driver(model, c, 2, a), run_driver(model, c, 3, a)
+            out['third_pass_moves'] = bool(abs(p3[f_] - p2[f_]) / abs(p2[f_]) * 100.0 >= 0.01)
         out['installed'] = bool(fd and prev is not None)
         mass = np.array(out['result'])
         out['thrust'] = [float(x) for x in np.atleast_1d(model.calculate_thrust(
@@ -515,6 +562,19 @@ def judge(chk: Check, c, io, tag):
                         return F18_SIG if first else (FA_SIG if bw else FB_SIG)
         return None
 
+    def early_return_unjustified():
+        """the driver stopped before n_iter passes. That is the property's 'decrease = trapezoid of fuel flow' only up to
+        the convergence criterion, so it needs (a) the free end of the profile (initial mass of the backward driver, final
+        mass of the forward one) to have moved by less than 0.01 % in the last pass that was done [prev -> r], or (b) the
+        returned profile to be a fixed point already: its steps are the trapezoid of the fuel flow at the RETURNED masses
+        (e.g. every point thrust-limited, so that a further pass changes nothing).  Neither: unjustified."""
+        f_ = 0 if d == 'cf' else n - 1
+        if abs(r[f_] - prev[f_]) / abs(prev[f_]) * 100.0 < 0.01 * (1.0 + 1e-9):
+            return False
+        want_r = ref_steps(eng, P, pts, r, ds)
+        tol_r = ref_step_tols(eng, P, pts, r, ds)
+        return not all(step_ok(g, w, t) for g, w, t in zip(steps, want_r, tol_r))
+
     if d.startswith('fd') and not fd and r[0] != c['m']:
         bad = f'without an iteration (n_iter = {k}) the profile starts at {r[0]!r}, not at the given estimate {c["m"]!r}'
     elif d == 'ci' and r[0] != c['m']:
@@ -531,6 +591,17 @@ def judge(chk: Check, c, io, tag):
         bad = (f'decrease of mass over step {j} is {steps[j]!r} kg, trapezoid of fuel flow / ground speed over that '
                f'segment is {want[j]!r} kg')
         sig = explain()
+    elif d in ('ci', 'cf') and io.get('same_as_fewer') and prev is not None and early_return_unjustified():
+        f_ = 0 if d == 'cf' else n - 1
+        want_r = ref_steps(eng, P, pts, r, ds)
+        tol_r = ref_step_tols(eng, P, pts, r, ds)
+        j = next(i for i, (g, w, t) in enumerate(zip(steps, want_r, tol_r)) if not step_ok(g, w, t))
+        drift = (sum(want_r) - sum(steps)) * (1.0 if d == 'cf' else -1.0)
+        bad = (f'returned before the {k} requested passes were done (n_iter = {k} gives the vector of fewer passes) although '
+               f'the free end of the profile ({"initial" if d == "cf" else "final"} mass) still moved by '
+               f'{abs(r[f_] - prev[f_]) / prev[f_] * 100.0!r} % (criterion 0.01 %) in its last pass, and the returned profile is '
+               f'not the trapezoid of the BADA-3 fuel flow AT THE RETURNED MASSES: step {j} decreases by {steps[j]!r} kg, '
+               f'trapezoid {want_r[j]!r} kg; one more pass would move the free end by {drift!r} kg')
     elif fd:
         if r[0] > c['mtow'] * (1 + 1e-12):
             bad = f'initial mass {r[0]!r} exceeds maximum take-off mass {c["mtow"]!r}'
@@ -593,6 +664,8 @@ def process(chk: Check, cases, flags):
                  'error' not in io and len(c['pts']) > 2)
         chk.count(f'case:{c["engine"]}/{c["driver"]}/n_iter={c["n_iter"]}/{"scalar" if c["scalar_dx"] else "array"}-dx')
         chk.count('cruise-flags-as:' + c.get('flag_kind', 'bool'))
+        if c.get('long'):
+            chk.count('long-heavy-flight' + ('/second-and-third-pass-above-criterion' if io.get('third_pass_moves') else ''))
         if 'twin_of' in c:
             chk.count('second-flight-on-same-model-object' + ('/parameters-changed-by-' + c['mutate_params']['how']
                                                               if c.get('mutate_params') else ''))
@@ -640,7 +713,10 @@ def run(chk: Check):
     chk.rule = ('parameter sets for Jet / Turboprop / Piston (representative coefficients +-15 %, occasionally negative '
                 'C_Tc5), profiles of 2-30 points (cruise, climb, descent, climb-cruise-descent, mixed; ISA and non-ISA '
                 'temperature; cruise flag; head/tail wind), scalar or per-segment distances, the four drivers with '
-                'n_iter in {1,2,3,5,10}; each driver is run for n_iter and n_iter-1; 30 % of the cases are followed by a second '
+                'n_iter in {1,2,3,5,10}; each driver is run for n_iter and n_iter-1; plus long / heavy cruise flights (3500-7500 km, '
+                'fuel a sizeable fraction of the mass, n_iter in {3,5,10}, mostly the backward driver) on which the third pass '
+                'still exceeds the 0.01 % criterion: a return before n_iter passes must be justified by the free end having '
+                'converged or by the profile being the trapezoid of the fuel flow at the returned masses; 30 % of the cases are followed by a second '
                 'flight on the SAME model object (identical altitude / cruise arrays, other temperature and airspeed);  one PRNG stream; '
                 'non-trivial = more than two points and the driver returned')
     chk.trusted += ['translator/c19_extract.py + py2coq.NumModule', 'harness/c19.py: correspondence, independent BADA-3 '
@@ -662,6 +738,12 @@ def run(chk: Check):
                                'piston_fuel_flow': 'C_f1 / 60, kg/s (repaired)' if flags.get('piston_per_second')
                                else 'C_f1 as it is, kg/min used as kg/s (FC19b present)'}
     cases = load_corpus(chk)
+    # long / heavy flights (their own PRNG stream, so that the ordinary stream is what it was)
+    import random
+    lrng = random.Random(f'C19-long-{chk.seed}')
+    cases.append(gen_long_case(lrng, 900, fixed=True))
+    for i in range(chk.n(8, 60)):
+        cases.append(gen_long_case(lrng, 901 + i))
     for i in range(chk.n(150, 1500)):
         c = gen_case(chk.rng, 1000 + 2 * i)
         cases.append(c)
